@@ -178,6 +178,12 @@ func extractTarDirectory(dirPath, dirName string, r io.Reader, buf []byte, prese
 		// Create content
 		switch header.Typeflag {
 		case tar.TypeReg:
+			// never write through an existing link: replace the old entry
+			if info, statErr := os.Lstat(filePath); statErr == nil && !info.IsDir() {
+				if err := os.Remove(filePath); err != nil {
+					return err
+				}
+			}
 			err = writeFile(filePath, tr, header.FileInfo().Mode(), buf)
 		case tar.TypeDir:
 			err = os.MkdirAll(filePath, header.FileInfo().Mode())
